@@ -458,11 +458,11 @@ Section Actions.
   | ParseErr (e : perr)
   | ParseCrash (site : string).
 
-  (* Parse, for one call on a freshly reset parser (the API state machine is in Api.v) *)
-  Definition parse_with (g : grammar) (input : list N) : presult :=
+  (* Parse, started from an arbitrary action state (what the global parser holds when the call begins) *)
+  Definition parse_from (st0 : pstate) (g : grammar) (input : list N) : presult :=
     match peg_parse g input with
     | POk _ _ toks =>
-        match execute toks input [] 0 ps_init with
+        match execute toks input [] 0 st0 with
         | AOk st => match proot st with
                     | Some t => ParseOk t
                     | None => ParseCrash "Execute finished without a root"
@@ -473,4 +473,6 @@ Section Actions.
     | PFail => ParseCrash "PEG: expression did not match"
     | PFuel => ParseCrash "PEG: out of fuel"
     end.
+  (* Parse, for one call on a freshly reset parser *)
+  Definition parse_with (g : grammar) (input : list N) : presult := parse_from ps_init g input.
 End Actions.
